@@ -235,7 +235,7 @@ func TestC05(t *testing.T) {
 		return
 	}
 
-	search(t, rec, "fork", budget(2000, 96000), 30, func(rt *rapid.T) {
+	search(t, rec, "fork", budget(2000, 640000), 30, func(rt *rapid.T) {
 		w := newC05World(c, rapid.Int64Range(2, 5).Draw(rt, "window"), rapid.Int64Range(2, 5).Draw(rt, "check"))
 		fail := func(sig, msg string) {
 			if sig != "" {
@@ -282,7 +282,7 @@ func TestC05(t *testing.T) {
 		rec.Case(w.rewardWithProverAndGauge, ev.Hash(w.trace...), func() interface{} { return w.trace })
 	})
 
-	search(t, rec, "abci", budget(100, 6400), 25, func(rt *rapid.T) {
+	search(t, rec, "abci", budget(100, 32000), 25, func(rt *rapid.T) {
 		W, C := rapid.Int64Range(2, 5).Draw(rt, "window"), rapid.Int64Range(2, 5).Draw(rt, "check")
 		sp := chain.DefaultStorageParams()
 		sp.ProofWindow, sp.CheckWindow, sp.CollateralPrice = W, C, 1000
